@@ -1,18 +1,435 @@
-//! C08 — not built yet (stub).
+//! C08 — references keep their target cells across row/column insert and remove.
+//! Explicit exploration of edit histories over real workbooks in lock-step with the AST reference shifter
+//! (engine: E1 spaces whose case = (formula, placement) and which loop over all histories).
+use crate::c09::fgrammar::*;
 use crate::common::*;
+use crate::e1::*;
 use crate::pool::*;
-use serde_json::Value;
+use serde_json::{json, Value};
+use std::collections::BTreeMap;
+use umya_spreadsheet::Spreadsheet;
 
 pub fn entry() -> crate::Entry {
     crate::Entry { id: "C08", run, space, replay }
 }
-pub fn space(_tier: Tier, _id: &str) -> Option<Box<dyn Space>> {
-    None
+
+pub const SHEETS: [&str; 3] = ["Sheet1", "My Sheet", "It's"];
+/// references sit at B2 / C3 / B2:C3 / B:C / 2:3
+pub const CO: Coords = Coords { c1: 2, r1: 2, c2: 3, r2: 3 };
+const PLAIN: &str = "Sheet1";
+/// the formula cell (T50) lies behind every edit position, so it moves but is never deleted
+const FCELL: (u32, u32) = (20, 50);
+/// edit positions: before the reference, on it, +1 (inside the range / on its end), just behind it, far behind it
+const POS: [u32; 5] = [1, 2, 3, 4, 9];
+const NS: [u32; 2] = [1, 3];
+
+fn guarded<T, F: FnOnce() -> T>(f: F) -> Result<T, String> {
+    std::panic::catch_unwind(std::panic::AssertUnwindSafe(f)).map_err(|e| panic_msg(&e))
 }
-fn replay(_tier: Tier, _case: &Value) -> Vec<Violation> {
-    vec![]
+
+/// full alphabet: 3 sheets x {insert, remove} x {row, column} x 5 positions x 2 counts = 120 edits
+fn edits_full() -> Vec<Edit> {
+    let mut v = vec![];
+    for sheet in SHEETS {
+        for insert in [true, false] {
+            for axis in [Axis::Row, Axis::Col] {
+                for p in POS {
+                    for n in NS {
+                        v.push(Edit { sheet, axis, insert, p, n });
+                    }
+                }
+            }
+        }
+    }
+    v
 }
-fn run(_ctx: &Ctx) -> i32 {
-    eprintln!("MACHINERY: C08 is not built yet");
-    2
+/// medium alphabet (histories of length 2): 3 sheets x 2 x 2 x p in {2,3} x n in {1,3} = 48
+fn edits_medium() -> Vec<Edit> {
+    edits_full().into_iter().filter(|e| e.p == 2 || e.p == 3).collect()
+}
+/// small alphabet (histories of length 3..4): sheets {Sheet1, My Sheet} x 2 x 2 x p in {2,3} x n = 1 = 16
+fn edits_small() -> Vec<Edit> {
+    edits_full().into_iter().filter(|e| (e.p == 2 || e.p == 3) && e.n == 1 && e.sheet != "It's").collect()
+}
+fn edit_json(e: &Edit) -> Value {
+    json!({"sheet": e.sheet, "op": if e.insert {"insert"} else {"remove"}, "axis": if e.axis == Axis::Row {"row"} else {"column"}, "p": e.p, "n": e.n})
+}
+fn apply(book: &mut Spreadsheet, e: &Edit) {
+    match (e.insert, e.axis) {
+        (true, Axis::Row) => book.insert_new_row(e.sheet, &e.p, &e.n),
+        (true, Axis::Col) => book.insert_new_column_by_index(e.sheet, &e.p, &e.n),
+        (false, Axis::Row) => book.remove_row(e.sheet, &e.p, &e.n),
+        (false, Axis::Col) => book.remove_column_by_index(e.sheet, &e.p, &e.n),
+    }
+}
+fn empty_book() -> Spreadsheet {
+    let mut book = Spreadsheet::default();
+    for s in SHEETS {
+        let _ = book.new_sheet(s);
+    }
+    book
+}
+fn book_with_formula(text: &str, placement: &str) -> Spreadsheet {
+    let mut book = empty_book();
+    book.get_sheet_by_name_mut(placement).unwrap().get_cell_mut(FCELL).set_formula(text);
+    book
+}
+/// the single formula cell of the placement sheet, wherever the edits moved it
+fn read_formula(book: &Spreadsheet, placement: &str) -> Option<String> {
+    let sheet = book.get_sheet_by_name(placement)?;
+    let mut cells: Vec<&umya_spreadsheet::Cell> = sheet.get_cell_collection().into_iter().filter(|c| c.is_formula()).collect();
+    cells.sort_by_key(|c| (*c.get_coordinate().get_row_num(), *c.get_coordinate().get_col_num()));
+    cells.first().map(|c| c.get_formula().to_string())
+}
+
+struct Explorer<'a> {
+    f0: &'a F,
+    placement: &'static str,
+    sink: &'a mut Sink,
+    /// per clause: (conforming transitions, violating transitions)
+    failed: BTreeMap<&'static str, (u64, u64)>,
+    transitions: u64,
+    panic_tags: BTreeMap<(&'static str, String), Vec<&'static str>>,
+}
+fn clause_of(e: &Edit) -> &'static str {
+    if e.insert {
+        "formula-insert"
+    } else {
+        "formula-remove"
+    }
+}
+impl<'a> Explorer<'a> {
+    fn case(&self, hist: &[Edit]) -> Value {
+        json!({"formula": render(self.f0).text, "placement": self.placement, "history": hist.iter().map(edit_json).collect::<Vec<_>>()})
+    }
+    /// does the sub-formula `g` panic with the given class somewhere along `hist`?
+    fn panics_along(g: &F, placement: &'static str, hist: &[Edit], class: &str) -> bool {
+        let mut book = book_with_formula(&render(g).text, placement);
+        for e in hist {
+            let r = guarded(|| apply(&mut book, e));
+            if let Err(m) = r {
+                return panic_class(&m) == class;
+            }
+        }
+        false
+    }
+    fn explore(&mut self, book: &Spreadsheet, model: &F, alphabet: &[Edit], depth_left: usize, hist: &mut Vec<Edit>) {
+        let before = render(model);
+        for e in alphabet {
+            hist.push(e.clone());
+            if hist.len() <= 2 {
+                // liveness for the watchdog: deep cases run for many seconds
+                self.sink.beat.note(&format!("{} @ {} after {} edits", before.text, self.placement, hist.len()));
+            }
+            self.transitions += 1;
+            self.sink.evaluations += 1;
+            let clause = clause_of(e);
+            let mut b2 = book.clone();
+            let placement = self.placement;
+            let r = guarded(move || {
+                apply(&mut b2, e);
+                let t = read_formula(&b2, placement);
+                (b2, t)
+            });
+            let model2 = shift_formula(model, self.placement, e);
+            match r {
+                Err(msg) => {
+                    let class = panic_class(&msg);
+                    let tags = match self.panic_tags.get(&(clause, class.clone())) {
+                        Some(t) => t.clone(),
+                        None => {
+                            let healthy = healthy_leaf(CO);
+                            let h = hist.clone();
+                            // blame through sub-formulas of the ORIGINAL formula replayed along the same history
+                            let t = attribute(self.f0, &healthy, &|g: &F| Self::panics_along(g, placement, &h, &class));
+                            self.panic_tags.insert((clause, class.clone()), t.clone());
+                            t
+                        }
+                    };
+                    self.failed.entry(clause).or_insert((0, 0)).1 += 1;
+                    self.sink.violations.push(Violation::new(clause, &format!("panic:{}", class), &tags, self.case(hist), format!("{:?} on {:?} after {:?}: panic {}", before.text, self.placement, edit_json(e), msg)));
+                }
+                Ok((_, None)) => {
+                    self.failed.entry(clause).or_insert((0, 0)).1 += 1;
+                    self.sink.violations.push(Violation::new(clause, "formula-cell-vanished", &formula_tags(self.f0), self.case(hist), format!("no formula cell left on {:?} after {:?}", self.placement, edit_json(e))));
+                }
+                Ok((b2, Some(got))) => {
+                    self.sink.obs(&format!("{}\u{1}{}", self.placement, got));
+                    let exp = render(&model2);
+                    match compare_axis(&exp, &before, &got, "deleted-target-not-REF", Some(e.axis)) {
+                        Some(d) => {
+                            self.failed.entry(clause).or_insert((0, 0)).1 += 1;
+                            self.sink.violations.push(Violation::new(clause, &d.symptom, &d.tags, self.case(hist), format!("{:?} on {:?}, {}: {}", before.text, self.placement, edit_json(e), d.detail)));
+                        }
+                        None => {
+                            self.failed.entry(clause).or_insert((0, 0)).0 += 1;
+                            // conforming transition: extend the history (a diverged state is not extended)
+                            if depth_left > 1 {
+                                self.explore(&b2, &model2, alphabet, depth_left - 1, hist);
+                            }
+                        }
+                    }
+                }
+            }
+            hist.pop();
+        }
+    }
+}
+
+/// plan of one (formula, placement) case: list of (alphabet, depth)
+fn run_case(f: &F, placement: &'static str, plan: &[(Vec<Edit>, usize)], sink: &mut Sink) {
+    let text = render(f).text;
+    sink.beat.note(&format!("{} @ {}", text, placement));
+    let book = match guarded(|| book_with_formula(&text, placement)) {
+        Ok(b) => b,
+        Err(m) => {
+            sink.violations.push(Violation::new("formula-insert", &format!("panic:{}", panic_class(&m)), &formula_tags(f), json!({"formula": text, "placement": placement, "history": []}), format!("set_formula panicked: {}", m)));
+            return;
+        }
+    };
+    let tags = formula_tags(f);
+    let mut ex = Explorer { f0: f, placement, sink, failed: BTreeMap::new(), transitions: 0, panic_tags: BTreeMap::new() };
+    for (alphabet, depth) in plan {
+        let mut hist = vec![];
+        ex.explore(&book, f, alphabet, *depth, &mut hist);
+    }
+    let failed = ex.failed.clone();
+    let tr = ex.transitions;
+    sink.count("transitions", tr);
+    for c in ["formula-insert", "formula-remove"] {
+        let (good, bad) = failed.get(c).cloned().unwrap_or((0, 0));
+        for t in &tags {
+            sink.count(&format!("clean|{}|{}", c, t), good);
+            sink.count(&format!("failing|{}|{}", c, t), bad);
+        }
+    }
+    sink.count("formula-placements", 1);
+}
+
+// ---- spaces -----------------------------------------------------------------------------------------------
+/// 4-leaf alphabet of the quick tier's wrapped / 3-leaf / chain sections: relative references only (the `$` forms are
+/// covered in the 1- and 2-leaf sections; they are known not to move, which would blanket the deeper sections)
+fn core4() -> Vec<Leaf> {
+    let s = ref_shapes(CO);
+    vec![
+        Leaf::Ref(Ref { q: Qual::None, k: s[0] }),
+        Leaf::Ref(Ref { q: Qual::None, k: s[4] }),
+        Leaf::Ref(Ref { q: Qual::Plain(PLAIN), k: RK::Cell { c: p(CO.c2, false), r: p(CO.r2, false) } }),
+        literal_leaves()[1].clone(),
+    ]
+}
+fn in_reduced(l: &Leaf) -> bool {
+    reduced_leaves(CO, PLAIN).contains(l)
+}
+/// histories of length 2 over the medium alphabet: quick = bare leaves; thorough = every formula with <= 2 leaves
+/// and at most one combinator whose leaves are all in the reduced alphabet (a bare leaf may be any leaf)
+fn depth2_eligible(f: &F, deep: bool) -> bool {
+    match f {
+        F::L(_) => true,
+        _ if !deep => false,
+        _ => children(f).iter().all(|c| matches!(c, F::L(l) if in_reduced(l))),
+    }
+}
+
+struct Formulas {
+    en: Enumerator,
+    deep: bool,
+    full: Vec<Edit>,
+    medium: Vec<Edit>,
+    small: Vec<Edit>,
+}
+/// quick tier: the wrapped / 3-leaf / chain sections meet only the 16-edit alphabet
+const QUICK_SMALL_SECTIONS: [&str; 4] = ["unary(unary(leaf))", "unary-around-binary", "three-leaves", "depth-6-chains"];
+impl Formulas {
+    fn item(&self, i: u64) -> Option<(F, &'static str, &'static str)> {
+        match self.en.get(i / 3) {
+            Some((sec, Some(f))) => Some((f, SHEETS[(i % 3) as usize], sec)),
+            _ => None,
+        }
+    }
+}
+impl Space for Formulas {
+    fn len(&self) -> u64 {
+        self.en.len() * 3
+    }
+    fn describe(&self, i: u64) -> Value {
+        match self.item(i) {
+            Some((f, p, _)) => json!({"kind": "formula-placement", "formula": render(&f).text, "placement": p}),
+            None => json!({"kind": "skipped-ill-formed"}),
+        }
+    }
+    fn tags(&self, i: u64) -> Vec<String> {
+        self.item(i).map(|(f, _, _)| formula_tags(&f).iter().map(|s| s.to_string()).collect()).unwrap_or_default()
+    }
+    fn run(&self, i: u64, sink: &mut Sink) {
+        match self.item(i) {
+            None => sink.count("skipped-ill-formed", 1),
+            Some((f, p, sec)) => {
+                if self.deep && sec == "three-leaves" && (i / 3) % 3 != i % 3 {
+                    // thorough tier: a 3-leaf formula is placed on ONE sheet (rotating with its index)
+                    sink.count("placements-not-taken-for-3-leaf-formulas", 1);
+                    return;
+                }
+                let first = if !self.deep && QUICK_SMALL_SECTIONS.contains(&sec) {
+                    self.small.clone()
+                } else if self.deep && (sec == "three-leaves" || sec == "unary-around-binary") {
+                    self.medium.clone()
+                } else {
+                    self.full.clone()
+                };
+                let mut plan = vec![(first, 1)];
+                if depth2_eligible(&f, self.deep) {
+                    plan.push((self.medium.clone(), 2));
+                    sink.count("formula-placements-with-length-2-histories", 1);
+                }
+                run_case(&f, p, &plan, sink);
+            }
+        }
+    }
+}
+
+/// ~40 formula core explored to depth 3 (quick) / 4 (thorough) over the small alphabet
+fn core_formulas() -> Vec<F> {
+    let red = reduced_leaves(CO, PLAIN);
+    let n = red.len();
+    let mut v: Vec<F> = red.iter().map(|l| F::L(l.clone())).collect();
+    let ops = [0usize, 1, 2, 5, 6, 7, 11];
+    for k in 0..n {
+        v.push(F::Bin(ops[k % ops.len()], false, Box::new(F::L(red[k].clone())), Box::new(F::L(red[(k + 1) % n].clone()))));
+    }
+    for k in 0..n {
+        v.push(F::Call("SUM", false, vec![F::L(red[k].clone()), F::L(red[(k + 5) % n].clone())]));
+    }
+    v.push(F::Call("IF", false, vec![F::Bin(9, false, Box::new(F::L(red[0].clone())), Box::new(F::L(red[8].clone()))), F::L(red[3].clone()), F::L(red[6].clone())]));
+    v.push(F::Isect(Box::new(F::L(red[3].clone())), Box::new(F::L(red[4].clone()))));
+    v.push(F::Union(Box::new(F::L(red[1].clone())), Box::new(F::L(red[5].clone()))));
+    v.push(F::Un(Un::Neg, Box::new(F::Un(Un::Paren, Box::new(F::Bin(2, true, Box::new(F::L(red[2].clone())), Box::new(F::L(red[6].clone()))))))));
+    v
+}
+struct Core {
+    forms: Vec<F>,
+    small: Vec<Edit>,
+    depth: usize,
+}
+impl Space for Core {
+    fn len(&self) -> u64 {
+        self.forms.len() as u64 * 3
+    }
+    fn describe(&self, i: u64) -> Value {
+        json!({"kind": "core-formula-placement", "formula": render(&self.forms[(i / 3) as usize]).text, "placement": SHEETS[(i % 3) as usize], "depth": self.depth})
+    }
+    fn tags(&self, i: u64) -> Vec<String> {
+        formula_tags(&self.forms[(i / 3) as usize]).iter().map(|s| s.to_string()).collect()
+    }
+    fn run(&self, i: u64, sink: &mut Sink) {
+        run_case(&self.forms[(i / 3) as usize], SHEETS[(i % 3) as usize], &[(self.small.clone(), self.depth)], sink);
+    }
+}
+
+struct Bracket {
+    forms: Vec<F>,
+    placements: usize,
+    full: Vec<Edit>,
+}
+impl Space for Bracket {
+    fn len(&self) -> u64 {
+        (self.forms.len() * self.placements) as u64
+    }
+    fn describe(&self, i: u64) -> Value {
+        json!({"kind": "bracket-formula-placement", "formula": render(&self.forms[i as usize / self.placements]).text, "placement": SHEETS[i as usize % self.placements]})
+    }
+    fn tags(&self, i: u64) -> Vec<String> {
+        formula_tags(&self.forms[i as usize / self.placements]).into_iter().filter(|t| *t == "structured-ref" || *t == "external-ref").map(|s| s.to_string()).collect()
+    }
+    fn run(&self, i: u64, sink: &mut Sink) {
+        run_case(&self.forms[i as usize / self.placements], SHEETS[i as usize % self.placements], &[(self.full.clone(), 1)], sink);
+    }
+}
+
+#[path = "c08_names.rs"]
+mod names;
+
+pub fn space(tier: Tier, id: &str) -> Option<Box<dyn Space>> {
+    let deep = tier == Tier::Thorough;
+    match id {
+        "formulas" => Some(Box::new(Formulas { en: main_space(CO, PLAIN, deep, core4()), deep, full: edits_full(), medium: edits_medium(), small: edits_small() })),
+        "core" => Some(Box::new(Core { forms: core_formulas(), small: edits_small(), depth: if deep { 4 } else { 3 } })),
+        "names" => Some(Box::new(names::Names::new(deep))),
+        "bracket" => {
+            let en = bracket_space(CO, deep);
+            let mut forms = vec![];
+            for j in 0..en.len() {
+                if let Some((_, Some(f))) = en.get(j) {
+                    forms.push(f);
+                }
+            }
+            Some(Box::new(Bracket { forms, placements: if deep { 3 } else { 1 }, full: edits_full() }))
+        }
+        _ => None,
+    }
+}
+
+fn replay(tier: Tier, case: &Value) -> Vec<Violation> {
+    replay_e1(space(tier, case["_space"].as_str().unwrap_or("")), case)
+}
+
+fn run(ctx: &Ctx) -> i32 {
+    let deep = ctx.tier == Tier::Thorough;
+    let main = main_space(CO, PLAIN, deep, core4());
+    let br = bracket_space(CO, deep);
+    if let Err(e) = crate::c09::validate_all(&[&main, &br]) {
+        eprintln!("MACHINERY: C08 own lexer failed its round trip: {}", e);
+        return 2;
+    }
+    // every expected rendering the shifter can produce for a leaf must lex as intended, too
+    for l in full_leaves(CO, PLAIN) {
+        if let Leaf::Ref(r) = &l {
+            for e in edits_full() {
+                for own in SHEETS {
+                    if let Err(m) = validate_lexer(&render(&F::L(shift_ref(r, own, &e)))) {
+                        eprintln!("MACHINERY: C08 own lexer failed on a shifted reference: {}", m);
+                        return 2;
+                    }
+                }
+            }
+        }
+    }
+    let sections: Vec<Value> = main.summary().into_iter().chain(br.summary()).map(|(n, c)| json!({"section": n, "index_range": c})).collect();
+    let only = std::env::var("UV_SPACES").unwrap_or_default(); // development knob: run a subset of the spaces
+    let ids: Vec<&'static str> = ["formulas", "core", "names", "bracket"].into_iter().filter(|id| only.is_empty() || only.split(',').any(|x| x == *id)).collect();
+    let spaces = ids.iter().map(|id| (*id, space(ctx.tier, id).unwrap())).collect();
+    run_e1(
+        ctx,
+        E1Spec {
+            spaces,
+            cfg: PoolCfg { chunk: if deep { 4 } else { 1 }, case_timeout: std::time::Duration::from_secs(3), keep_per_class: 2, ..Default::default() },
+            level: "model_checking",
+            rule: "workbook with sheets Sheet1 / My Sheet / It's; case = (formula of the harness grammar, sheet holding it at T50); from the initial state every history of workbook-level edits (Spreadsheet::insert_new_row / insert_new_column_by_index / remove_row / remove_column_by_index by sheet name) up to the stated length is executed on a clone of the real workbook in lock-step with the AST reference shifter (a reference = set of cells on a sheet; survivors translated, bounding box, #REF! when none survives; $ irrelevant; other sheets' references and all other tokens unchanged); after every transition Cell::get_formula of the formula cell is compared with the shifted AST token by token through the harness's own lexer; a diverged state is not extended. Space 'names' does the same for references carried by a global defined name, sheet-scoped defined names and a chart series (compared as parsed sheet + reference). states = distinct (placement, resulting text) pairs; transitions = executed (state, edit) steps; counters clean|<clause>|<tag> / failing|... = conforming / violating transitions of formulas carrying the tag".into(),
+            alphabets: json!({
+                "sheets": SHEETS,
+                "edits_full": edits_full().len(), "edits_medium": edits_medium().len(), "edits_small": edits_small().len(),
+                "positions": POS, "counts": NS,
+                "leaves_full": full_leaves(CO, PLAIN).iter().map(render_leaf).collect::<Vec<_>>(),
+                "leaves_reduced": reduced_leaves(CO, PLAIN).iter().map(render_leaf).collect::<Vec<_>>(),
+                "leaves_bracket": bracket_leaves().iter().map(render_leaf).collect::<Vec<_>>(),
+                "core_formulas": core_formulas().iter().map(|f| render(f).text).collect::<Vec<_>>(),
+                "name_carriers": names::CARRIERS,
+                "name_references": names::name_refs().iter().map(|r| render_leaf(&Leaf::Ref(r.clone()))).collect::<Vec<_>>(),
+            }),
+            bounds: json!({"tier": ctx.tier.name(), "formula_sections": sections,
+                "histories": {"length-1": if deep {"sections leaf, unary, binary(full,full), unary(unary), chains: every formula x 3 placements x 120 edits; unary-around-binary: x 3 placements x 48 edits; three-leaves: x 1 placement (rotating with the index) x 48 edits"} else {"every formula x every placement x 120 edits (sections leaf, unary, binary) or x 16 edits (wrapped / 3-leaf / chain sections)"},
+                              "length-2": if deep {"bare leaves and one-combinator formulas over the reduced leaves x 48 edits"} else {"bare leaves x 48 edits"},
+                              "core": format!("{} core formulas x 3 placements x 16 edits to depth {}", core_formulas().len(), if deep {4} else {3}),
+                              "names": if deep {"length 2 over the 120-edit alphabet"} else {"length 1 over the 120-edit alphabet, length 2 over the 48-edit alphabet"}}}),
+            exhaustive: true,
+            caps_hit: vec![],
+            assumptions: vec![
+                "the formula cell is located by scanning its sheet (workbook-level edits also move cells of sheets they do not name - C07's subject)".into(),
+                "a deleted defined name / chart reference counts as correct when the model says its target was deleted (the statement asks for #REF!; dropping the name does not designate a different cell)".into(),
+                "a dead reference is compared modulo the spelling Sheet!#REF! / #REF!".into(),
+                "histories are extended only through conforming transitions (after a divergence the lock-step comparison is meaningless)".into(),
+            ],
+            min_distinct: 300,
+        },
+    )
 }
